@@ -8,12 +8,12 @@ P = {
  "C01": dict(
   technique="property-based testing (proptest): generated series x window x min_periods x element/output types vs from-scratch reference model, long-history drift runs, shrinking to replay files",
   text="Generated-input search: every position of every generated series is compared with an independent from-scratch evaluation of its window (two-pass moments, explicit weights), for 18 entry points, 6 input and 5 output element types, returned and out-buffer paths, plus 2k-20k element histories. Shows agreement on everything generated, not absence of defects.",
-  note="Oracle tolerance is the condition-aware bound of DESIGN 5.9 (defects below ~1e3 x measured rounding error are invisible); Vec backend only (other backends are C07); finite inputs; plain family on null-free data.",
+  note="Oracle tolerance is the condition-aware bound of DESIGN 5.9 (defects below ~1e3 x measured rounding error are invisible); Vec backend only (other backends are C07); finite inputs; plain family on null-free data. Sub-properties integer_edges:* run sum / mean / std / wma on i32 series containing the type minimum or maximum and on u64 / usize series (every window sum representable).",
   ref="6 C01, 5.1, 5.6, 5.9"),
  "C02": dict(
   technique="model-based property testing: recording stateful callback vs explicit call-sequence model, exhaustive small scope (len<=12, all windows) plus random larger cases over all backends",
   text="Every driver entry point is run with a recording, stateful callback on every backend and output path; the recorded call sequence, arguments, slices and output placement are compared with an explicit model. Exhaustive for len 0..=12 x w 1..=len+3; random beyond.",
-  note="Polars cells limited to documented-supported paths (DESIGN 5.7); the removed argument at the single unspecified position is not compared. Sub out_view_placement (enumerated) writes through strided / reversed ndarray out views inside a padded sentinel buffer and checks placement and that nothing else is written.",
+  note="Polars cells limited to documented-supported paths (DESIGN 5.7); the removed argument at the single unspecified position is not compared. Sub out_view_placement (enumerated) writes through strided / reversed ndarray out views inside a padded sentinel buffer and checks placement and that nothing else is written; sub deque_out_buffer_and_longer_second_series writes into physically wrapped VecDeque out buffers and passes a second series longer than the first. Both run first in a child process (engine canary): a child killed by a signal is a reported violation.",
   ref="6 C02"),
  "C03": dict(
   technique="property-based testing (proptest) with tie-heavy / monotone-run generators vs exact per-window reference, plus coverage-guided fuzzing (libFuzzer) of the extrema state machine in the thorough tier",
@@ -38,7 +38,7 @@ P = {
  "C07": dict(
   technique="differential property testing (proptest + exhaustive small scope): same logical sequence materialised in every backend / rotation / stride / chunking, results compared bitwise with the Vec reference; accessor coherence model",
   text="Differential testing across the backend x output container x out-path matrix: every cell must be bit-identical to the Vec->Vec returned reference; accessor coherence (get/iter/rev/slice/try_as_slice/len) is enumerated exhaustively for small sequences.",
-  note="Cells documented as unsupported (Polars uset, DESIGN 5.7) are not generated. The Polars cells (chunked arrays with 1..3 chunks as input and as output container) run in the companion binary c07pl, which the THOROUGH tier builds and runs (linking polars takes minutes); the quick tier covers all non-Polars backends.",
+  note="Cells documented as unsupported (Polars uset, DESIGN 5.7) are not generated. The Polars cells (numeric chunked arrays with 1..3 chunks as input and as output container, string and Datetime columns, NaN payloads in valid slots as a pure differential against Vec<Option<f64>>) run in the companion binary c07pl, which the THOROUGH tier builds and runs (linking polars takes minutes; VERIF_POLARS=1 adds it to the quick tier); the quick tier covers all non-Polars backends.",
   ref="6 C07, 5.7"),
  "C08": dict(
   technique="metamorphic property testing (proptest): NaN-encoding vs None-encoding of the same logical series, and null-insertion transparency",
@@ -53,7 +53,7 @@ P = {
  "C10": dict(
   technique="property-based testing with instrumented containers (access-log / write-log monitors) implementing the public backend traits; libFuzzer+ASan on the real containers in the thorough tier",
   text="All rolling, rank, partition and quantile kernels run against an instrumented input view (logs every unchecked access) and an instrumented output buffer (logs every write); outcome must be a completed call with a clean log and every slot written exactly once, or a clean panic before any bad access.",
-  note="Instrumented containers re-use the library's own default driver bodies; sub real_containers runs the kernels on the real Vec / wrapped VecDeque / strided ndarray view against the model, and the thorough tier repeats that under ASan with libFuzzer (fz_kernel).",
+  note="Instrumented containers re-use the library's own default driver bodies; sub real_containers runs the kernels on the real Vec / wrapped VecDeque / strided ndarray view against the model, sub real_out_buffers (canary: first in a child process) writes into wrapped VecDeque and strided / reversed ndarray out buffers of the real containers, and the thorough tier repeats the kernels under ASan with libFuzzer (fz_kernel).",
   ref="6 C10"),
  "C11": dict(
   technique="property-based testing (proptest): textbook reference definitions on the non-null elements, null law, permutation invariance (metamorphic)",
@@ -63,7 +63,7 @@ P = {
  "C12": dict(
   technique="property-based testing (proptest): sort-based order-statistic reference and validity predicates for partitions",
   text="Quantiles, percentile-of-score, ranks compared with a sort-based reference; partitions checked by a validity predicate (exact length k+1, multiset of the k+1 smallest/largest valid values, padding only at the end, sortedness when asked).",
-  note="(n-1)q within 1e-9 of an integer accepts either neighbour (DESIGN 5.5). Partitions also run on non-nullable integer element types whenever k+1 <= len (no padding exists for them, 5.7).",
+  note="(n-1)q within 8 u (n-1) of an integer accepts either neighbour (DESIGN 5.5; grid points nudged by 1e-13 / 1e-11 must be treated as off-grid). Partitions also run on non-nullable integer element types whenever k+1 <= len (no padding exists for them, 5.7); sub wide_integers shifts integer series beyond 2^53 (i64 / Option<i64>): ranks and partitions must be those of the offsets.",
   ref="6 C12, 5.5"),
  "C13": dict(
   technique="property-based testing (proptest): positional reference interpreter for shift/diff/pct_change/fill/clip/abs, algebraic laws (clip idempotence, containment)",
@@ -103,7 +103,7 @@ P = {
  "C20": dict(
   technique="property-based testing (proptest): clip-to-interval predicate for winsorize, rank+Pearson model and monotone-map metamorphic relation for Spearman, bracket model and termination for half_life",
   text="winsorize checked against independently computed bounds (nulls kept, inside values bit-identical, others on the nearer bound, order preserved); Spearman vs Pearson of average ranks and invariance under exact increasing maps; half_life must return in range without panic and equal the first lag with autocorrelation <= 0.5 for well-shaped series.",
-  note="Overflow checks on, so a wrapped bracket panics instead of looping; watchdog as backstop.",
+  note="Overflow checks on, so a wrapped bracket panics instead of looping; watchdog as backstop. Spearman is also evaluated on Option<i64> series shifted beyond 2^53 (order-only invariance).",
   ref="6 C20"),
 }
 
